@@ -58,7 +58,11 @@ func parseCmd(line string) (cmd string, arg string, err error) {
 // The leading space is mandatory.
 func parseArgs(s string) (map[string]string, error) {
 	argMap := map[string]string{}
-	for _, arg := range strings.Fields(s) {
+	// Parameters are separated by SP (RFC 5321 section 4.1.2). strings.Fields
+	// would also split at Unicode white space such as U+00A0 or U+0085, which
+	// may legitimately occur inside UTF-8 parameter values (RFC 6531, RFC 6533).
+	isSep := func(r rune) bool { return r == ' ' || r == '\t' }
+	for _, arg := range strings.FieldsFunc(s, isSep) {
 		m := strings.Split(arg, "=")
 		switch len(m) {
 		case 2:
